@@ -22,7 +22,9 @@ Record case := {
   c_obs : list obs;
   c_protected : list term;      (* the protected master key file as rebuilt by the harness ([] for the raw lock) *)
   c_wrong_master_reads : bool;  (* did any Get succeed in a key manager opened with another master key? *)
-  c_wrong_pass_unlocks : bool   (* did local.NewService succeed with another passphrase? *)
+  c_wrong_pass_unlocks : bool;  (* did local.NewService succeed with another passphrase? *)
+  c_nblobs : nat;               (* protected master keys made in this run, each by its own lock instance *)
+  c_events : list enc_event     (* every encryption seen: its key (as rebuilt) and its nonce (equal bytes = equal number) *)
 }.
 
 Fixpoint check_from (st : kstate) (ops : list kop) (o : list obs) : bool :=
@@ -43,7 +45,10 @@ Definition check_case (c : case) : bool :=
           (writes (run init (c_ops c))) &&
   negb (c_wrong_pass_unlocks c) &&
   match unlock (c_cfg c) (Bytes 11) with None => true | Some _ => false end &&
-  all_safe (knowledge (c_cfg c) (run init (c_ops c))).
+  all_safe (knowledge (c_cfg c) (run init (c_ops c))) &&
+  (* the implementation encrypted under the model's keys, in the model's order, and never repeated a (key, nonce) *)
+  terms_eqb (map fst (c_events c)) (enc_keys (c_cfg c) (c_nblobs c) (c_ops c)) &&
+  discipline (c_events c).
 
 Fixpoint mismatches_from (i : nat) (cs : list case) : list nat :=
   match cs with
